@@ -115,26 +115,44 @@ def CloseTo (a b : Vec3) (atol : Rat) : Prop :=
   absRat (a.x - b.x) ≤ atol + rtol * absRat b.x ∧ absRat (a.y - b.y) ≤ atol + rtol * absRat b.y ∧
   absRat (a.z - b.z) ≤ atol + rtol * absRat b.z
 
-theorem closeVec_iff (a b : Vec3) (atol : Rat) : closeVec a b atol = true ↔ CloseTo a b atol := by
-  have hc : ∀ x y : Rat, closeCoord x y atol = true ↔ absRat (x - y) ≤ atol + rtol * absRat y := by
-    intro x y
-    unfold closeCoord rtol
-    rw [decide_eq_true_iff]
-    have : absRat y / 100000 = 1 / 100000 * absRat y := by ring
-    rw [this]
-  unfold closeVec CloseTo
-  simp only [Bool.and_eq_true, hc]
+/-- componentwise closeness with the absolute tolerance alone: `|a − b| ≤ atol` on all three coordinates
+    (`np.allclose(a, b, rtol=0, atol=atol)`, the re-check of the search model) -/
+def CloseAbs (a b : Vec3) (atol : Rat) : Prop :=
+  absRat (a.x - b.x) ≤ atol ∧ absRat (a.y - b.y) ≤ atol ∧ absRat (a.z - b.z) ≤ atol
+
+theorem closeVec_iff (a b : Vec3) (atol : Rat) : closeVec a b atol = true ↔ CloseAbs a b atol := by
+  unfold closeVec CloseAbs closeCoord
+  simp only [Bool.and_eq_true, decide_eq_true_iff]
   tauto
 
-/-- what the search's final re-check says: every matched position is close (in the sense of `np.allclose`) to the
-    image of its pattern atom under the check frame -/
+/-- the absolute bound implies the `np.allclose` bound with any non-negative relative term -/
+theorem closeAbs_closeTo (a b : Vec3) (atol : Rat) (h : CloseAbs a b atol) : CloseTo a b atol := by
+  have hr : ∀ y : Rat, 0 ≤ rtol * absRat y := by
+    intro y
+    have := absRat_nonneg y
+    unfold rtol
+    have h1 : (0 : Rat) ≤ 1 / 100000 := by decide +kernel
+    exact Rat.mul_nonneg h1 this
+  obtain ⟨h1, h2, h3⟩ := h
+  exact ⟨by linarith [hr b.x], by linarith [hr b.y], by linarith [hr b.z]⟩
+
+/-- what the search's final re-check says: every matched position is within `atol` (per coordinate) of the image of its
+    pattern atom under the check frame -/
 theorem goodCheck_iff (pp : List Vec3) (ax1 : Nat) (atol : Rat) (q : Quat) (cpos : List Vec3) :
     goodCheck pp ax1 atol q cpos = true ↔
       ∀ k, k < pp.length →
-        CloseTo (cpos.getD k Vec3.zero)
+        CloseAbs (cpos.getD k Vec3.zero)
           (checkFrame q (pp.getD ax1 Vec3.zero) (cpos.getD ax1 Vec3.zero) (pp.getD k Vec3.zero)) atol := by
   unfold goodCheck checkFrame
   simp only [List.all_eq_true, List.mem_range, closeVec_iff]
+
+/-- the weaker `np.allclose` form (absolute + relative term): holds for the re-check with and without a relative term -/
+theorem goodCheck_closeTo (pp : List Vec3) (ax1 : Nat) (atol : Rat) (q : Quat) (cpos : List Vec3)
+    (h : goodCheck pp ax1 atol q cpos = true) :
+    ∀ k, k < pp.length →
+      CloseTo (cpos.getD k Vec3.zero)
+        (checkFrame q (pp.getD ax1 Vec3.zero) (cpos.getD ax1 Vec3.zero) (pp.getD k Vec3.zero)) atol :=
+  fun k hk => closeAbs_closeTo _ _ _ ((goodCheck_iff pp ax1 atol q cpos).mp h k hk)
 
 /-! ### the two frames differ by one constant vector -/
 
